@@ -52,7 +52,11 @@ func init() {
 					x.Put("crashAt", x.Now())
 					// it dies the way a Go program does: a panic report on stderr (with its empty line), then exit
 					io.WriteString(lc.r.stderr, "panic: runtime error: invalid memory address or nil pointer dereference\n[signal SIGSEGV: segmentation violation code=0x1 addr=0x0 pc=0x4b1e2f]\n\ngoroutine 1 [running]:\nmain.main()\n\t/src/plugin/main.go:42 +0x1f\nexit status 2\n")
-					lc.r.exit()
+					if p["death"] == "silent" {
+						lc.r.exitKeepingSockets()
+					} else {
+						lc.r.exit()
+					}
 				},
 			})
 		},
@@ -271,6 +275,9 @@ func init() {
 					if o.name == "broker-dial" || o.name == "broker-dial2" || o.name == "broker-accept" {
 						bound = 14 * time.Second // 5 s broker wait + the exchange's own deadline
 					}
+					if p["death"] == "silent" {
+						bound += 45 * time.Second // nothing tells the host but its own liveness probe (yamux: every 30 s, 10 s to answer)
+					}
 					if o.end-from > bound {
 						x.Fail("T", "%s returned %v after the plugin died (bound %v) [%s]", o.name, o.end-from, bound, desc)
 					}
@@ -297,6 +304,11 @@ func init() {
 			return []explore.Params{{"proto": "netrpc"}, {"proto": "grpc"}, {"proto": "grpcmux"}}
 		},
 		Instances: func(tier string) []explore.Params {
+			if tier == "silent" {
+				// a death the kernel does not announce on the connections (descriptors inherited by a surviving child):
+				// net/rpc only — there the connection's own keep-alive bounds every call
+				return []explore.Params{{"proto": "netrpc", "death": "silent"}}
+			}
 			return []explore.Params{{"proto": "netrpc"}, {"proto": "grpc"}, {"proto": "grpcmux"}}
 		},
 	})
